@@ -786,6 +786,17 @@ func (e *env) c05multiplex(rng *rand.Rand, nsps []string) {
 	// disconnecting one namespace leaves the others connected
 	victim := nsps[rng.Intn(len(nsps))]
 	socks[victim].Disconnect()
+	// (the server needs its time on a loaded machine: wait for the first disconnect, then a little for any others)
+	rig.WaitUntil(3*time.Second, func() bool {
+		w.mu.Lock()
+		defer w.mu.Unlock()
+		for _, sid := range w.order {
+			if w.disc[sid] > 0 {
+				return true
+			}
+		}
+		return false
+	})
 	time.Sleep(80 * time.Millisecond)
 	w.mu.Lock()
 	var gone, alive []string
